@@ -1,7 +1,7 @@
 (* C05 — Data directives emit exactly the bytes they specify. *)
 From V Require Import Base.
 From V.model Require Import MText MValues MOperands MProgram.
-From V.proofs Require Import PRender PC05 PC05list PC05line PC18.
+From V.proofs Require Import PRender PC05 PC05list PC05line PC18 PC01text.
 From V.gen Require Tables.
 From Coq Require String.
 Import String.StringSyntax.
@@ -85,6 +85,30 @@ Theorem C05_fcb_out_of_range_rejected :
     (256 <= value_number v \/ value_number v < -128)%Z -> translate_operand (OPseudo s v) i = Diag 21.
 Proof. exact fcb_out_of_range_rejected. Qed.
 Print Assumptions C05_fcb_out_of_range_rejected.
+
+(* (c-line) a single FCB / FDB literal from the SOURCE LINE: a statement line in any layout whose operand field is a
+   decimal or $hex literal in ANY spelling (leading zeros, either letter case of hex digits - lit_ok) that fits the
+   directive's width is ACCEPTED and emits exactly the positional value of the digits, one byte / two bytes high
+   byte first (lit_value l <= 65535 holds for every lit_ok literal the assembler reads; it is kept as a hypothesis) *)
+Theorem C05_fcb_literal_line_emits_its_value :
+  forall f l,
+    well_formed_fields f -> upper_t (lf_mn f) = FCB_t -> lf_ops f = lit_text l -> lit_ok l -> lit_value l <= 255 ->
+    exists st p, parse_line (line_of f) = Ok (Some st) /\ s_label st = lf_label f /\
+      translate_operand (s_operand st) (s_instr st) = Ok p /\
+      cp_size p = 1 /\ emit_value (cp_op p) = Ok [] /\ emit_value (cp_post p) = Ok [] /\
+      emit_value (cp_add p) = Ok [lit_value l].
+Proof. exact fcb_literal_line_emits_its_value. Qed.
+Print Assumptions C05_fcb_literal_line_emits_its_value.
+
+Theorem C05_fdb_literal_line_emits_its_value :
+  forall f l,
+    well_formed_fields f -> upper_t (lf_mn f) = FDB_t -> lf_ops f = lit_text l -> lit_ok l -> lit_value l <= 65535 ->
+    exists st p, parse_line (line_of f) = Ok (Some st) /\ s_label st = lf_label f /\
+      translate_operand (s_operand st) (s_instr st) = Ok p /\
+      cp_size p = 2 /\ emit_value (cp_op p) = Ok [] /\ emit_value (cp_post p) = Ok [] /\
+      emit_value (cp_add p) = Ok [lit_value l / 256; lit_value l mod 256].
+Proof. exact fdb_literal_line_emits_its_value. Qed.
+Print Assumptions C05_fdb_literal_line_emits_its_value.
 
 (* (c') value LISTS of any length >= 2 (MultiByteValue / MultiWordValue).  elem_ok p n: the piece p is not empty, holds no
    comma and is a literal the assembler reads as the number n (decimal, -decimal, $hex, %binary, 'c).  The operand text
@@ -207,4 +231,17 @@ Proof.
   cbv zeta. split; [|split; vm_compute; reflexivity].
   unfold well_formed_fields. repeat split; try (vm_compute; reflexivity); try discriminate.
   right. eexists. eexists. split; [vm_compute; reflexivity|]. split; [vm_compute; reflexivity | discriminate].
+Qed.
+
+(* the hypotheses of (c-line) are met: a $hex literal with a leading zero and lower-case digits *)
+Example C05_literal_line_nonvacuous :
+  let f := {| lf_label := []; lf_sp1 := t " "; lf_mn := t "FdB"; lf_sp2 := t "   "; lf_ops := t "$0aBc"; lf_rest := t "
+" |} in
+  let l := Hex (t "0aBc") in
+  well_formed_fields f /\ upper_t (lf_mn f) = FDB_t /\ lf_ops f = lit_text l /\ lit_ok l /\ lit_value l = 2748.
+Proof.
+  cbv zeta. split; [|split; [|split; [|split]]]; try (vm_compute; reflexivity).
+  - unfold well_formed_fields. repeat split; try (vm_compute; reflexivity); try discriminate.
+    right. eexists. eexists. split; [vm_compute; reflexivity|]. split; [vm_compute; reflexivity | discriminate].
+  - cbn [lit_ok]. split; [discriminate|]. split; [vm_compute; reflexivity | cbn; lia].
 Qed.
